@@ -40,6 +40,17 @@ use std::fmt;
 #[derive(Clone, Copy, Eq, Hash, PartialEq, PartialOrd, Ord)]
 pub struct Ttl(u32);
 
+impl Ttl {
+    /// Wraps the raw value of a 32-bit TTL *field* without applying the
+    /// [RFC 2181 § 8] interpretation. This is for pseudo-RRs such as
+    /// OPT, whose TTL field carries flags rather than a time-to-live.
+    ///
+    /// [RFC 2181 § 8]: https://datatracker.ietf.org/doc/html/rfc2181#section-8
+    pub(crate) fn from_raw_field(raw: u32) -> Self {
+        Self(raw)
+    }
+}
+
 impl From<u32> for Ttl {
     fn from(raw: u32) -> Self {
         if raw > i32::MAX as u32 {
